@@ -17,6 +17,7 @@
 (*   "determinism" depth-limited searches only (C13)                       *)
 (*   "repetition"  games that shuffle back into earlier positions (C09)    *)
 (*   "pressure"    one game, deep searches, no ucinewgame: a large table    *)
+(*   "heavy"       the same with a depth-8 search first (> 2^18 entries)      *)
 (***************************************************************************)
 EXTENDS Uci, Json, IOUtils
 
@@ -72,8 +73,10 @@ GenUci == /\ CmdUci(<<[t |-> "id"], [t |-> "uciok"]>>)
           /\ Emit([kind |-> "uci", text |-> "uci"]) /\ Step /\ UNCHANGED <<game, older>>
 GenIsReady == /\ CmdIsReady(<<[t |-> "readyok"]>>)
               /\ Emit([kind |-> "isready", text |-> "isready"]) /\ Step /\ UNCHANGED <<game, older>>
+\* (the abandoned game becomes `older`: "again" / "againx" right after ucinewgame send it again, unchanged or
+\* extended - nothing the engine remembers about the abandoned game may be "continued"; seeded change C03d)
 GenNewGame == /\ CmdNewGame(<<>>)
-              /\ game' = StartGame /\ UNCHANGED older
+              /\ game' = StartGame /\ older' = game
               /\ Emit([kind |-> "ucinewgame", text |-> "ucinewgame"]) /\ Step
 GenUnknown == /\ CmdUnknown(<<>>)
               /\ Emit([kind |-> "unknown", text |-> RandomElement(UnknownLines)]) /\ Step /\ UNCHANGED <<game, older>>
@@ -104,7 +107,8 @@ EmitGo(g) == Emit([kind |-> "go", text |-> GoText(g), go |-> [x \in DOMAIN g \ {
 CanonicalAnswer == <<[t |-> "bestmove", move |-> IF Legal(board) = {} THEN "0000" ELSE Uci(CHOOSE m \in Legal(board) : TRUE)]>>
 DoGo(g) == CmdGo(CanonicalAnswer) /\ EmitGo(g) /\ Step /\ UNCHANGED <<game, older>>
 NoOrder == <<>>
-GenGoDepth == DoGo(GoRec(RandomElement(IF Profile = "determinism" THEN 1..4 ELSE IF Profile = "pressure" THEN {6, 7} ELSE 1..3),
+GenGoDepth == DoGo(GoRec(RandomElement(IF Profile = "determinism" THEN 1..4 ELSE IF Profile = "pressure" THEN {6, 7}
+                                      ELSE IF Profile = "heavy" THEN (IF n <= 3 THEN {8} ELSE {7}) ELSE 1..3),
                         -1, -1, -1, -1, -1, NoOrder))
 GenGoMovetime == DoGo(GoRec(-1, RandomElement({0, 1, 5, 50}), -1, -1, -1, -1, NoOrder))
 GenGoDepthMovetime == DoGo(GoRec(RandomElement(1..6), RandomElement({0, 1, 5, 50}), -1, -1, -1, -1, NoOrder))
@@ -183,14 +187,18 @@ GenEof == Eof /\ Emit([kind |-> "eof", text |-> ""]) /\ Step /\ UNCHANGED <<game
 Menu ==
   CASE Profile = "handshake" -> <<"uci", "isready", "isready", "newgame", "unknown", "unknown", "startpos", "extend", "godepth">>
     [] Profile = "go" -> <<"fen", "fen", "startpos", "extend", "extend", "newgame", "godepth", "gomovetime", "godm", "goclock",
-                           "goclock", "isready", "twin", "twin", "again", "godepth">>
+                           "goclock", "isready", "twin", "twin", "again", "againx", "godepth">>
     [] Profile = "position" -> <<"fen", "fen", "startpos", "extend", "extend", "extend", "shuffle", "newgame", "godepth",
                                  "again", "again", "againx", "twin">>
-    [] Profile = "determinism" -> <<"fen", "startpos", "extend", "extend", "godepth", "godepth", "godepth", "twin", "again">>
+    [] Profile = "determinism" -> <<"fen", "startpos", "extend", "extend", "godepth", "godepth", "godepth", "twin", "again",
+                                    "newgame", "againx">>
     \* one long game near the opening searched deeply after every few moves, never a ucinewgame: the table
     \* grows to several hundred thousand entries (C13: whatever depends on the random hash keys - slot
     \* collisions, replacement, eviction - shows only under this pressure)
     [] Profile = "pressure" -> <<"extend", "godepth", "godepth">>
+    \* the same with one depth-8 search early on: more than a quarter of a million entries after the first go,
+    \* beyond any plausible "bounded table" of 2^18 entries (seeded change C13d: eviction in hash-map order)
+    [] Profile = "heavy" -> <<"extend", "godepth", "godepth">>
     [] Profile = "repetition" -> <<"startpos", "fen", "extend", "shuffle", "shuffle", "cycle", "cycle", "cycle", "cycle", "back",
                                   "newgame", "rcycle", "rcycle", "epcycle", "again", "twin">>
 Do(w) == CASE w = "uci" -> GenUci [] w = "isready" -> GenIsReady [] w = "newgame" -> GenNewGame [] w = "unknown" -> GenUnknown
